@@ -341,3 +341,226 @@ def evaluate(cases, prefix, shard=400, jobs=8):
         for i, m, s in b:
             bad.append((part[i], m, s))
     return obs, bad, {"skipped_unmodelled": skipped, "spec_checked": checked, "eval_errors": errors, "observed": len(idx)}
+
+
+# ------------------------------------------------------------------ the check
+SPEC_CODES = {
+    30: "accepted value could not be encoded",
+    31: "encoded bytes differ from the SEMI E5 encoding of the value",
+    32: "the E5 encoding of an accepted value could not be decoded by a fresh variable of the same type",
+    33: "decode did not consume exactly the encoded bytes",
+    34: "decoded value differs from the value that was encoded",
+}
+MODEL_CODES = {
+    10: "implementation accepted a value the model rejects",
+    11: "implementation rejected a value the model accepts",
+    12: "internal value after set() differs from the model",
+    13: "get() differs from the model",
+    14: "implementation encoded a value the model cannot encode",
+    15: "implementation failed to encode a value the model encodes",
+    16: "encoded bytes differ from the model",
+    17: "implementation decoded bytes the model rejects",
+    18: "implementation failed to decode bytes the model decodes",
+    19: "model ran out of fuel",
+    20: "decoded value / end position differ from the model",
+}
+
+
+def case_repr(case):
+    t, p, tail = case
+    return repr((t, p, bytes(tail)))
+
+
+def case_eval(text):
+    return eval(text, {"__builtins__": {}}, {"Typed": L.Typed, "bytearray": bytearray, "inf": float("inf"), "nan": float("nan")})  # noqa: S307
+
+
+def _typed_repr(self):
+    return f"Typed({self.kind!r}, {self.value!r})"
+
+
+L.Typed.__repr__ = _typed_repr
+
+
+def group_key(case, code):
+    t = case[0]
+    top = t[0] if t[0] != "scal" else t[1]
+    return (code, top)
+
+
+def decide(report, prop, cases, obs, bad, stats, proof, spec_codes, model_codes, extra_replay=None):
+    """Common decision logic of the value-codec checks (C01, C02, C03, C14)."""
+    spec_bad = [(i, m, s) for i, m, s in bad if s >= 30]
+    model_bad = [(i, m, s) for i, m, s in bad if m >= 10]
+    seen = set()
+    for i, m, s in spec_bad:
+        key = group_key(cases[i], s)
+        if key in seen or len(seen) >= 5:
+            continue
+        seen.add(key)
+        o = obs[i][0]
+        report.violation(
+            {
+                "kind": "counterexample",
+                "what": spec_codes.get(s, str(s)),
+                "case": case_repr(cases[i]),
+                "spec_code": s,
+                "model_code": m,
+                "observed": {k: (v.hex() if isinstance(v, bytes) else repr(v)) for k, v in o.items() if k != "val"},
+                "observed_internal": o["val"][:2000],
+                "broken_obligation": proof.get("broken"),
+            },
+            True,
+            tag=f"spec{s}",
+        )
+    if spec_bad:
+        return
+    if stats["eval_errors"]:
+        report.violation(
+            {"kind": "broken-obligation", "obligation": f"correspondence {prop}: case evaluation failed in Coq", "detail": stats["eval_errors"][0][-1500:],
+             "also": proof.get("broken")},
+            False,
+            tag="evalerror",
+        )
+        return
+    if model_bad:
+        i, m, s = model_bad[0]
+        o = obs[i][0]
+        report.violation(
+            {
+                "kind": "broken-obligation",
+                "obligation": f"correspondence {prop}: model and implementation disagree ({model_codes.get(m, m)})",
+                "case": case_repr(cases[i]),
+                "model_code": m,
+                "disagreements": len(model_bad),
+                "observed": {k: (v.hex() if isinstance(v, bytes) else repr(v)) for k, v in o.items() if k != "val"},
+                "observed_internal": o["val"][:2000],
+                "also": proof.get("broken"),
+                "search": f"specification evaluated on all {stats['observed']} cases of this run: no failing input",
+            },
+            False,
+            tag=f"model{m}",
+        )
+        return
+    if not proof["ok"]:
+        report.violation(
+            {"kind": "broken-obligation", "obligation": proof["broken"],
+             "search": f"model and specification evaluated on {stats['observed']} cases: implementation agrees with both"},
+            False,
+            tag="proof",
+        )
+
+
+def fill_coverage(report, cases, obs, stats, rule):
+    import hashlib
+
+    distinct = set()
+    for case, ob in zip(cases, obs):
+        if ob is None:
+            continue
+        if nontrivial(case[0], case[1], ob[0]):
+            distinct.add(hashlib.sha256(ob[1].encode()).hexdigest())
+    cov = report.coverage
+    cov["evaluations"] = stats["observed"]
+    cov["distinct_nontrivial"] = len(distinct)
+    cov["rule"] = rule
+    cov["correspondence"] = {k: v for k, v in stats.items() if k != "eval_errors"}
+    kinds = {}
+    sizes = {"0": 0, "1-16": 0, "17-255": 0, "256-65535": 0, ">=65536": 0}
+    errs = {"accepted": 0, "rejected": 0, "encode_failed": 0, "decode_failed": 0}
+    for case, ob in zip(cases, obs):
+        if ob is None:
+            continue
+        t = case[0]
+        kinds[t[1] if t[0] == "scal" else t[0]] = kinds.get(t[1] if t[0] == "scal" else t[0], 0) + 1
+        o = ob[0]
+        if not o["set_ok"]:
+            errs["rejected"] += 1
+            continue
+        errs["accepted"] += 1
+        if o["enc"] is None:
+            errs["encode_failed"] += 1
+            continue
+        if o["dec"] is None:
+            errs["decode_failed"] += 1
+        n = len(o["enc"])
+        sizes["0" if n <= 2 else "1-16" if n <= 18 else "17-255" if n <= 257 else "256-65535" if n < 65540 else ">=65536"] += 1
+    cov["distribution"] = {"top_level_kind": kinds, "encoded_size": sizes, "outcome": errs}
+    cov["samples"] = [case_repr(c)[:300] for c in cases[:: max(1, len(cases) // 8)][:8]]
+
+
+KNOWN = [
+    {
+        "id": "C01-typed-count",
+        "case": "(('dyn', ['U4', 'String'], 1), Typed('String', 'abc'), b'')",
+        "expect_spec_code": 32,
+        "text": "Dynamic(count=1).set(String('abc')) is accepted (typed wrappers bypass the count check) but its encoding cannot be decoded by a fresh Dynamic(count=1)",
+    },
+]
+
+
+def replay_known(report, prop, known, evaluate_fn):
+    listed = {e["id"]: e for e in common.known_findings(prop)}
+    cases = []
+    metas = []
+    for k in known:
+        entry = listed.get(k["id"])
+        if entry is None:
+            continue
+        cases.append(case_eval(k["case"]))
+        metas.append((k, entry))
+    if not cases:
+        return
+    obs, bad, stats = evaluate_fn(cases, f"{prop.lower()}_known")
+    badmap = {i: (m, s) for i, m, s in bad}
+    out = []
+    for idx, (k, entry) in enumerate(metas):
+        m, s = badmap.get(idx, (0, 0))
+        still = s >= 30
+        out.append({"id": k["id"], "status": entry.get("status"), "still_fails": still, "spec_code": s})
+        if entry.get("status") == "open":
+            if still:
+                report.known(f"{k['id']}: {k['text']}")
+        elif still:  # a fixed finding came back
+            report.violation({"kind": "counterexample", "what": f"fixed finding {k['id']} fails again: {k['text']}", "case": k["case"], "spec_code": s}, True, tag="regress")
+    report.coverage["known_findings_replayed"] = out
+
+
+def run(tier, replay=None):
+    report = common.Report("C01", tier)
+    if replay:
+        return do_replay(replay)
+    proof = common.prove(report, "C01", ["varconsts", "jis8"], extra_targets=["Run/C01Run.vo"])
+    ok, log = common.coq_make(["Run/C01Run.vo"])
+    if not ok:
+        report.violation({"kind": "broken-obligation", "obligation": "model Run/C01Run.vo does not build against the regenerated constants",
+                          "detail": log[-1500:], "also": proof.get("broken")}, False, tag="modelbuild")
+        return report.finish()
+    rnd = common.rng("c01")
+    cases = gen_cases(rnd, tier)
+    obs, bad, stats = evaluate(cases, "c01")
+    decide(report, "C01", cases, obs, bad, stats, proof, SPEC_CODES, MODEL_CODES)
+    replay_known(report, "C01", KNOWN, evaluate)
+    fill_coverage(report, cases, obs, stats,
+                  "cases = (variable type, plain python value, trailing bytes): every scalar class x element counts "
+                  "{0,1,2,3,5,17,254..257" + (",65534..65537" if tier == "thorough" else "") + "} x input forms, numeric boundaries of each width "
+                  "(and just outside), all 256 byte values in text/binary, count-limited types at count-1/count/count+1, arrays at "
+                  "length-byte boundaries, random nested record/array/dynamic types to depth 6; distinct = distinct Coq case literal; "
+                  "non-trivial = value accepted and encoding longer than an empty item")
+    return report.finish()
+
+
+def do_replay(path):
+    import json
+
+    with open(path, encoding="utf-8") as handle:
+        doc = json.load(handle)
+    if "case" not in doc:
+        print(json.dumps(doc, indent=1))
+        return 0
+    case = case_eval(doc["case"])
+    obs, bad, stats = evaluate([case], "c01_replay")
+    print("case:", doc["case"])
+    print("implementation:", {k: (v.hex() if isinstance(v, bytes) else v) for k, v in obs[0][0].items()})
+    print("codes (index, model, spec):", bad, "| model: 0 agree; spec: 0 holds, 1 outside domain, >=30 violated")
+    return 1 if any(s >= 30 or m >= 10 for _, m, s in bad) else 0
